@@ -254,6 +254,21 @@ def run_table(case):
         res.append(stage_results(g, sel, struct, case["depth"], case["seed"], case["noisy"], extra, common, case["gap"], case["cn_noise"] / 100.0,
                                  novel=novel[b_]))
     viol = []
+    # the first and the last RefSeq base of every gene region lie in the same region in both builds
+    for rn in g19.regions[0]:
+        if rn in g38.regions[0]:
+            ends = []
+            for g_ in (g19, g38):
+                rg_ = g_.regions[0][rn]
+                if rg_.end <= rg_.start:
+                    ends = None
+                    break
+                five, three = (rg_.start, rg_.end - 1) if g_.strand > 0 else (rg_.end - 1, rg_.start)
+                ends.append((g_.region_at(five), g_.region_at(three)))
+            if ends and ends[0] != ends[1]:
+                viol.append(V("region-of-a-boundary-base-differs-between-builds", region=rn, hg19=str(ends[0]), hg38=str(ends[1]),
+                              strands=[g19.strand, g38.strand]))
+                break
     if res[0].get("novel-effects") != res[1].get("novel-effects"):
         viol.append(V("inferred-effect-of-non-catalogue-variant-differs-between-builds", hg19=str(res[0].get("novel-effects")), hg38=str(res[1].get("novel-effects"))))
     compare(res[0], res[1], viol, "table")
@@ -348,7 +363,7 @@ def strategy(tier):
 
     table = st.sampled_from(["gen"] * 25 + small * 1 + ["cyp2d6"]).flatmap(table_for_gene)
     align = st.fixed_dictionaries({
-        "kind": st.just("align"), "db": gen_db.db_specs(dual_opposite=True, gaps=False),
+        "kind": st.just("align"), "db": gen_db.db_specs(dual_opposite=True, gaps=False, edge=True),
         "hap": st.lists(st.tuples(st.integers(0, 5), st.integers(0, 40)).map(list), min_size=2, max_size=2),
         "extra": st.lists(st.integers(0, 40), max_size=1), "rl": st.sampled_from([50, 100, 150]), "depth": st.sampled_from([20, 25]),
         "sim_seed": st.integers(0, 10 ** 6)})
